@@ -26,7 +26,10 @@ Walk(steps, i, reg, ctx) ==
   LET s    == steps[i]
       cs   == ToSetS(s.cbs)
       reg2 == CASE s.op = "register" -> reg \cup cs [] s.op = "unregister" -> reg \ cs [] OTHER -> reg
-      ctx2 == CASE s.op = "enter" -> Append(ctx, cs) [] s.op = "exit" -> SubSeq(ctx, 1, Len(ctx) - 1) [] OTHER -> ctx
+      ctx2 == CASE s.op = "enter" -> Append(ctx, cs)
+                [] s.op = "exit" -> SubSeq(ctx, 1, Len(ctx) - 1)
+                [] s.op = "exitat" -> [j \in 1..(Len(ctx) - 1) |-> IF j < s.pos THEN ctx[j] ELSE ctx[j + 1]]
+                [] OTHER -> ctx
       act  == reg2 \cup UNION {ctx2[j] : j \in DOMAIN ctx2}
       bad  == Clause("ActiveAfter_" \o s.op, ToSetS(s.obs_active) = act)
               \cup (IF s.op # "run" THEN {}
